@@ -706,3 +706,14 @@ func NormalizeNil(v reflect.Value) reflect.Value {
 	}
 	return out
 }
+
+// bodySchemaClass classifies a body schema; a $ref to a schema component that is
+// itself an alias is its own class (the alias type has no JSON methods: C06-F1).
+func bodySchemaClass(d *specgen.Doc, s *specgen.Schema) string {
+	if s != nil && s.Ref != "" && d.Components != nil {
+		if cs := d.Components.Schemas[strings.TrimPrefix(s.Ref, specgen.RefSchemas)]; cs != nil && cs.Ref != "" {
+			return "ref-alias-component"
+		}
+	}
+	return targetClass(d, s)
+}
